@@ -58,8 +58,11 @@ def cases(tier):
     for book, p in example_files():
         yield ['file', book, p]
     for fam, n in gen_families(tier):
-        for i in range(0, n, 30):
-            yield ['gen', fam, i, min(i + 30, n)]
+        # one expression per case for the simplification family: a case ends at its first violation, and a listed known
+        # finding must not hide its neighbours
+        step = 1 if fam == 'simplify' else (10 if fam == 'integral' else 30)
+        for i in range(0, n, step):
+            yield ['gen', fam, i, min(i + step, n)]
 
 
 # ------------------------------------------------------------------------------ comparison
